@@ -1560,6 +1560,109 @@ def run_trace(ctx):
 
 
 # ------------------------------------------------------------------------------------------------
+# ----------------------------------------------------------------------------------------------
+# history: the hard constraints are a function of the optimisation's specification and of the instructions given -- not of what the same objects were used for before
+# ----------------------------------------------------------------------------------------------
+def _hard_of(opt, ins):
+    import atomica.optimization as ao
+
+    try:
+        x0, _, _ = opt.get_initialization(StubProgset(), ins)
+        hcs = opt.get_hard_constraints(x0, ins)
+    except ao.UnresolvableConstraint:
+        return ["unresolvable"]
+    except ao.InvalidInitialConditions:
+        return ["invalid-initial"]
+    except Exception as e:
+        return ["exception", type(e).__name__, str(e)[:120]]
+    hc = hcs[0]
+    return ["ok", {int(t): round(float(np.ravel(v)[0]), 9) for t, v in hc["initial_total_spend"].items()},
+            {int(t): {name: [round(float(b[0]), 9), round(float(b[1]), 9)] for name, b in d.items()} for t, d in hc["bounds"].items()}]
+
+
+def _scaled(sc_, k):
+    s2 = copy.deepcopy(sc_)
+    s2["alloc"] = {p: {t: v * k for t, v in d.items()} for p, d in sc_["alloc"].items()}
+    if s2["con"]["total"] is not None:
+        s2["con"]["total"] = [None if v is None else v * k for v in s2["con"]["total"]]
+    for a in s2["adjs"]:
+        if a["kind"] == "package":
+            a["min_total"] = None if a["min_total"] is None else a["min_total"] * k
+            a["max_total"] = None if a["max_total"] is None else a["max_total"] * k
+        if a["kind"] == "plain" and a["limit"] == "abs":
+            a["lower"] = [v * k for v in a["lower"]]
+            a["upper"] = [v * k if math.isfinite(v) else v for v in a["upper"]]
+    return s2
+
+
+def run_reuse(ctx):
+    import atomica.optimization as ao
+
+    r = ctx.rng
+    done = 0
+    for _ in range(ctx.n(60, 600)):
+        scA = gen_scenario(r)
+        k = r.choice([2.0, 0.5, 3.0])
+        scB = _scaled(scA, k)
+        try:
+            insA, adjs, con = build(scA)
+            insB, adjsB_fresh, conB_fresh = build(scB)
+        except AssertionError:
+            continue
+        # the SAME adjustment and constraint objects, used first with instructions A and then with instructions B (B = A scaled: relative limits must follow the new starting point).
+        # Absolute numbers stated in the objects (absolute limits, package totals, explicit totals) are part of the specification, so only scenarios without them are reused as they are.
+        stated_abs = any((a["kind"] == "plain" and a["limit"] == "abs" and any(v not in (0.0,) and math.isfinite(v) for v in list(a["lower"]) + list(a["upper"]))) or
+                         (a["kind"] == "package" and (a["min_total"] is not None or a["max_total"] is not None)) for a in scA["adjs"]) or scA["con"]["total"] is not None
+        if stated_abs or any(a["kind"] == "package" for a in scA["adjs"]):
+            continue
+        opt = ao.Optimization(adjustments=adjs, measurables=[], constraints=[con])
+        old = np.seterr(all="ignore")
+        try:
+            first = _hard_of(opt, insA)
+            reused = _hard_of(opt, insB)
+            fresh = _hard_of(ao.Optimization(adjustments=adjsB_fresh, measurables=[], constraints=[conB_fresh]), insB)
+        finally:
+            np.seterr(**old)
+        done += 1
+        ctx.count("reuse.compared")
+        if any(a["kind"] == "plain" and a["limit"] == "rel" for a in scA["adjs"]):
+            ctx.count("reuse.relative_limits")
+        ctx.case({"oracle": "reuse", "n_adj": len(scA["adjs"]), "k": k}, nontrivial=first[0] == "ok", sample=None)
+        if reused != fresh and not (reused[0] == fresh[0] == "exception"):
+            ctx.violation({"api": "Optimization.get_hard_constraints", "case": "depends-on-earlier-use-of-the-same-objects"},
+                          f"hard constraints for instructions B computed with adjustment / constraint objects that were used before with instructions A: {str(reused)[:260]}; with freshly built objects: {str(fresh)[:260]} (B = A x {k})",
+                          {"kind": "reuse", "scenario": scA, "k": k})
+    # a TotalSpendConstraint without explicit years shared by two optimisations, the second adjusting an additional year
+    for _ in range(ctx.n(20, 200)):
+        sc_ = gen_scenario(r)
+        if sc_["con"]["t"] is not None or sc_["con"]["total"] is not None or len(sc_["years"]) < 2 or any(a["kind"] != "plain" for a in sc_["adjs"]):
+            continue
+        y_first = min(sc_["years"])
+        sc1 = copy.deepcopy(sc_)
+        sc1["adjs"] = [dict(a, t=[y_first], lower=[a["lower"][a["t"].index(y_first)]], upper=[a["upper"][a["t"].index(y_first)]]) for a in sc_["adjs"] if y_first in a["t"]]
+        if not sc1["adjs"] or sc1["adjs"] == sc_["adjs"]:
+            continue
+        try:
+            ins, adjs_all, con_shared = build(sc_)
+            _, adjs_first, _ = build(sc1)
+            _, adjs_all_fresh, con_fresh = build(sc_)
+        except AssertionError:
+            continue
+        old = np.seterr(all="ignore")
+        try:
+            _hard_of(ao.Optimization(adjustments=adjs_first, measurables=[], constraints=[con_shared]), ins)
+            reused = _hard_of(ao.Optimization(adjustments=adjs_all, measurables=[], constraints=[con_shared]), ins)
+            fresh = _hard_of(ao.Optimization(adjustments=adjs_all_fresh, measurables=[], constraints=[con_fresh]), ins)
+        finally:
+            np.seterr(**old)
+        ctx.count("reuse.shared_constraint")
+        ctx.case({"oracle": "reuse-constraint", "years": sc_["years"]}, nontrivial=True, sample=None)
+        if reused != fresh and not (reused[0] == fresh[0] == "exception"):
+            ctx.violation({"api": "TotalSpendConstraint.get_hard_constraint", "case": "depends-on-earlier-use-of-the-same-objects"},
+                          f"a TotalSpendConstraint() without explicit years, used first by an optimisation that adjusts {y_first} only and then by one that adjusts {sc_['years']}: {str(reused)[:240]}; a fresh constraint gives {str(fresh)[:240]}",
+                          {"kind": "reuse-constraint", "scenario": sc_})
+
+
 def run(ctx):
     import logging
     import atomica
@@ -1570,6 +1673,7 @@ def run(ctx):
     run_scenarios(ctx)
     settotal_cases(ctx)
     run_trace(ctx)
+    run_reuse(ctx)
     byk = {}
     for v in ctx.violations:
         k = v["key"]["api"] + ":" + v["key"]["case"]
